@@ -216,7 +216,8 @@ pub fn interpret(s: &Served, ent: &EntitySpec, is_head: bool) -> View {
                 Err(e) => issue(&mut issues, "multipart:content-type", e),
                 Ok(b) => {
                     if !is_head {
-                        let truncated = t.capped;
+                        // a drain that was cut short (by the cap, or by a panic in the body) is examined as a prefix
+                        let truncated = t.capped || t.panicked().is_some();
                         if truncated || clean {
                             match multipart::parse_prefix(&t.body, &b, truncated) {
                                 Err(e) => issue(&mut issues, "multipart:structure", e),
